@@ -88,6 +88,10 @@ def reprefix(p, p2, q):
     return tuple(p2) + tuple(q[len(p):]) if is_prefix(p, q) else tuple(q)
 
 
+# defects repaired in /repo (fix: commits aca8b22 0750142 f003354 85f4db6): their triggers are generated again
+REPAIRED = {"D11", "D12", "N4", "N11"}
+
+
 class Mirror:
     def __init__(self):
         self.sp = {}         # path(tuple) -> {"cells": {n: fml}, "refs": {n: v}, "bases": [paths], "namer": k}
@@ -514,7 +518,7 @@ class Mirror:
             inner = [q for q in self.sp if is_prefix(dele, q) and q != dele]
             if any(d for q in inner for d in self.subs(q) if not is_prefix(dele, d)):
                 t.append("N5")
-        return t
+        return [x for x in t if x not in REPAIRED]
 
     def has_cells_only(self, d, n):
         return self.has_cells(d, n)
